@@ -160,4 +160,32 @@ example :
       = (some (-8, -8, -8), none, none, none) := by
   decide +kernel
 end
+/-! ## polygon ∩ line in the plane: every returned point is a point of the line on an edge -/
+
+section
+variable {F : Type} [Field F] [LinearOrder F] [IsStrictOrderedRing F]
+
+/-- **T18 (polygon × line, soundness)**: every point that the model of `Polygon.intersect(line)` returns (before `distinct`) is a
+    non-zero point of the line `l` that the membership test of one of the edges accepts — for every vertex cycle -/
+theorem T18_polyIntersectLine_sound (vs : List (Nat → F)) (l X : Nat → F) (hX : X ∈ polyIntersectLine vs l) :
+    dot 3 l X = 0 ∧ ¬ (X 0 = 0 ∧ X 1 = 0 ∧ X 2 = 0) ∧
+    ∃ e ∈ polyEdges vs, segContains e.1 e.2 (cross e.1 e.2) X = true := by
+  simp only [polyIntersectLine, List.mem_filterMap] at hX
+  obtain ⟨e, he, hs⟩ := hX
+  simp only [segIntersectLine] at hs
+  split at hs
+  · rename_i hc
+    simp only [Option.some.injEq] at hs
+    subst hs
+    simp only [Bool.and_eq_true, Bool.not_eq_true', decide_eq_false_iff_not] at hc
+    refine ⟨?_, hc.1, e, he, hc.2⟩
+    simp [dot, sumRange, cross]; ring
+  · cases hs
+
+/-- … and a line that passes through no edge-carrying position returns nothing for an empty vertex list (degenerate input) -/
+theorem T18_polyIntersectLine_nil (l : Nat → F) : polyIntersectLine ([] : List (Nat → F)) l = [] := by
+  simp [polyIntersectLine, polyEdges]
+
+end
+
 end Geo
